@@ -123,8 +123,11 @@ TFind ==
             /\ \A p \in stale : p[1] \notin DOMAIN oh
             /\ \E gone \in SUBSET (pend \ {p[2] : p \in live}) :
                   /\ Cardinality(gone) = Cardinality(stale)
+                  \* (destroyed; hidden by a logout; or its handle of that time was dropped - by a logout - and the object
+                  \*  has no handle or a NEWER one now: the search is a snapshot of handles)
                   /\ \A o \in gone : IF o \notin DOMAIN obj THEN TRUE
-                                      ELSE IF ~Visible(E.h, o) THEN TRUE ELSE HandleOf(o) = {}
+                                      ELSE IF ~Visible(E.h, o) THEN TRUE
+                                      ELSE HandleOf(o) \cap {p[1] : p \in stale} = {}
                   /\ fpend' = [fpend EXCEPT ![E.h] = (pend \ {p[2] : p \in live}) \ gone]
             /\ oh'     = [g \in (DOMAIN oh) \cup new |->
                              IF g \in DOMAIN oh THEN oh[g] ELSE (CHOOSE p \in need : p[1] = g)[2]]
